@@ -1,6 +1,7 @@
 (* Byte strings as stdlib [string] (a list of 8-bit characters): what the stream
    models use for file_bytes, mime strings and skip reasons.  Stdlib only. *)
-From Coq Require Import String Ascii List Arith Bool.
+From Coq Require Export String.
+From Coq Require Import Ascii List Arith Bool.
 Import ListNotations.
 Open Scope string_scope.
 
